@@ -234,7 +234,9 @@ class Task:
 
         if version == "1.0":
             if connection == "keep-alive":
-                if not content_length_header:
+                if not content_length_header or self.close_on_finish:
+                    # (already decided to close, e.g. an error response:
+                    # do not announce Keep-Alive next to Connection: close)
                     self.set_close_on_finish()
                 else:
                     self.response_headers.append(("Connection", "Keep-Alive"))
